@@ -487,6 +487,182 @@ Proof.
   cbv zeta in *. split; [exact J3|]. intros bk Hk. rewrite <- L1. apply L2. apply L3. exact Hk.
 Qed.
 
+(* ---------- DeallocateIf frees exactly the selected live blocks ---------- *)
+Lemma lfull_set_lists w q a b0 : lfull (getp (set_lists w q a b0) q) = a.
+Proof. unfold set_lists. rewrite getp_setp_eq. reflexivity. Qed.
+
+Lemma pvDeleteBlock_lfull q w bk y : y <> fst bk ->
+  (In y (lfull (getp (pvDeleteBlock C w q bk) q)) <-> In y (lfull (getp w q))).
+Proof.
+  intros N. unfold pvDeleteBlock. cbv zeta. set (w1 := push w bk).
+  set (w2 := if fc w1 (fst bk) =? 1 then move_head w1 q (fst bk) else w1).
+  assert (In y (lfull (getp w2 q)) <-> In y (lfull (getp w q))) as E2.
+  { unfold w2. destruct (fc w1 (fst bk) =? 1).
+    - unfold move_head. rewrite lfull_set_lists. rewrite removez_In. unfold w1. rewrite getp_push. tauto.
+    - unfold w1. rewrite getp_push. tauto. }
+  assert (forall lf lr, getp (add_returned (set_bytes (set_lists w2 q lf lr) (fst bk) 0 0) (fst bk)) q = relist (getp w2 q) lf lr) as Gd
+    by (intros; unfold set_lists, relist; destruct q; reflexivity).
+  repeat match goal with |- context [if ?c then _ else _] => destruct c end; try exact E2.
+  - unfold drop_head. rewrite Gd. unfold relist. cbn [lfull]. exact E2.
+  - unfold drop_mid. rewrite Gd. unfold relist. cbn [lfull]. rewrite removez_In. tauto.
+Qed.
+
+Section Sel.
+Variable f : blk -> bool.
+Variable p : bool.
+
+Lemma del_step_live b fbits w i q :
+  live (getp (del_step f p b fbits w i) q) =
+    if memz i fbits then live (getp w q) else if f (b, i) then (if Bool.eqb q p then removeb (b, i) (live (getp w q)) else live (getp w q)) else live (getp w q).
+Proof.
+  unfold del_step. destruct (memz i fbits); [reflexivity|]. destruct (f (b, i)); [|reflexivity].
+  rewrite (live_of_lives _ _ q (pvDeleteBlock_lives C (remove_live w p (b, i)) p (b, i))). unfold remove_live.
+  destruct q, p; simpl; reflexivity.
+Qed.
+
+Lemma del_step_lfull b fbits w i y : y <> b ->
+  (In y (lfull (getp (del_step f p b fbits w i) p)) <-> In y (lfull (getp w p))).
+Proof.
+  intros N. unfold del_step. destruct (memz i fbits); [tauto|]. destruct (f (b, i)); [|tauto].
+  rewrite pvDeleteBlock_lfull by exact N. unfold remove_live. rewrite getp_setp_eq. reflexivity.
+Qed.
+
+(* which blocks one call of pvDeleteBlocks removes from the live list (purely by computation) *)
+Lemma del_loop_live b fbits : forall l w bk,
+  In bk (live (getp (foldl (del_step f p b fbits) l w) p)) <->
+  In bk (live (getp w p)) /\ ~ (fst bk = b /\ In (snd bk) l /\ memz (snd bk) fbits = false /\ f bk = true).
+Proof.
+  induction l as [|i t IH]; intros w bk; cbn [foldl].
+  - simpl. tauto.
+  - rewrite IH. rewrite del_step_live. rewrite Bool.eqb_reflx.
+    destruct bk as [b' j]. cbn [fst snd].
+    destruct (memz i fbits) eqn:M.
+    + split; intros (H1 & H2); (split; [exact H1|]).
+      * intros (E & [Ei|Hi] & Mm & Ff); [subst; congruence|apply H2; auto].
+      * intros (E & Hi & Mm & Ff). apply H2. simpl. auto.
+    + destruct (f (b, i)) eqn:F.
+      * rewrite removeb_In. split.
+        -- intros ((H1 & Hn) & H2). split; [exact H1|]. intros (E & [Ei|Hi] & Mm & Ff); [subst; apply Hn; reflexivity|apply H2; auto].
+        -- intros (H1 & H2). split; [split; [exact H1|]|].
+           ++ intro E. inversion E; subst. apply H2. simpl. auto.
+           ++ intros (E & Hi & Mm & Ff). apply H2. simpl. auto.
+      * split; intros (H1 & H2); (split; [exact H1|]).
+        -- intros (E & [Ei|Hi] & Mm & Ff); [subst; congruence|apply H2; auto].
+        -- intros (E & Hi & Mm & Ff). apply H2. simpl. auto.
+Qed.
+
+Lemma del_loop_live_other b fbits : forall l w,
+  live (getp (foldl (del_step f p b fbits) l w) (negb p)) = live (getp w (negb p)).
+Proof.
+  induction l as [|i t IH]; intros w; cbn [foldl]; [reflexivity|]. rewrite IH, del_step_live.
+  assert (Bool.eqb (negb p) p = false) as -> by (destruct p; reflexivity).
+  destruct (memz i fbits); [reflexivity|]. destruct (f (b, i)); reflexivity.
+Qed.
+
+Lemma del_loop_lfull b fbits y : y <> b -> forall l w,
+  (In y (lfull (getp (foldl (del_step f p b fbits) l w) p)) <-> In y (lfull (getp w p))).
+Proof. intros N. induction l as [|i t IH]; intros w; cbn [foldl]; [tauto|]. rewrite IH. apply del_step_lfull. exact N. Qed.
+
+(* one buffer *)
+Lemma pvDeleteBlocks_sel w b :
+  JC p None w -> In b (own (getp w p)) ->
+  let w' := pvDeleteBlocks C f w p b in
+  (forall bk, In bk (live (getp w p)) -> f bk = false -> In bk (live (getp w' p))) /\
+  (forall bk, In bk (live (getp w' p)) -> fst bk = b -> f bk = false) /\
+  (forall y, y <> b -> (In y (lfull (getp w' p)) <-> In y (lfull (getp w p)))).
+Proof.
+  intros ((_ & (_ & _ & _ & _ & _ & _ & P7 & _) & _) & _) Ob. cbv zeta. rewrite pvDeleteBlocks_is_loop.
+  split; [|split].
+  - intros bk Hk Ff. apply del_loop_live. split; [exact Hk|]. intros (_ & _ & _ & Ft). congruence.
+  - intros bk Hk Eb. apply del_loop_live in Hk. destruct Hk as (Hl & Hn).
+    destruct (P7 bk) as (Rg & Nc & _); [left; unfold lb; apply in_or_app; left; exact Hl|].
+    destruct (f bk) eqn:Ff; [|reflexivity]. exfalso. apply Hn. split; [exact Eb|]. split; [apply PoolConcProofs.upto_In; lia|].
+    split; [|reflexivity]. rewrite <- Eb. destruct (memz (snd bk) (chain_of w (fst bk))) eqn:M; [apply memz_In in M; contradiction|reflexivity].
+  - intros y N. apply del_loop_lfull. exact N.
+Qed.
+
+(* a snapshot list of buffers *)
+Lemma del_buffers_sel : forall L w,
+  NoDup L -> (forall b, In b L -> In b (own (getp w p))) -> JC p None w -> cache (getp w p) = [] ->
+  let w' := foldl (fun w b => pvDeleteBlocks C f w p b) L w in
+  (forall bk, In bk (live (getp w p)) -> f bk = false -> In bk (live (getp w' p))) /\
+  (forall bk, In bk (live (getp w' p)) -> In (fst bk) L -> f bk = false) /\
+  (forall y, ~ In y L -> (In y (lfull (getp w' p)) <-> In y (lfull (getp w p)))).
+Proof.
+  induction L as [|b t IH]; intros w ND Ow Jw Ec; cbv zeta; [simpl; repeat split; auto; tauto|]. cbn [foldl]. inversion ND as [|? ? Nb NDt]; subst.
+  destruct (pvDeleteBlocks_JC f p w b Jw Ec (Ow b (or_introl eq_refl))) as (J1 & E1 & O1 & L1 & _).
+  destruct (pvDeleteBlocks_sel w b Jw (Ow b (or_introl eq_refl))) as (S1 & S2 & S3). cbv zeta in *.
+  assert (forall y, In y t -> In y (own (getp (pvDeleteBlocks C f w p b) p))) as Ow'.
+  { intros y Hy. apply O1; [intro; subst; contradiction|apply Ow; right; exact Hy]. }
+  destruct (IH (pvDeleteBlocks C f w p b) NDt Ow' J1 E1) as (T1 & T2 & T3).
+  destruct (del_buffers_JC f p t (pvDeleteBlocks C f w p b) NDt Ow' J1 E1) as (_ & _ & TL). cbv zeta in *.
+  split; [|split].
+  - intros bk Hk Ff. apply T1; [apply S1; assumption|exact Ff].
+  - intros bk Hk [Eb|Hin]; [|apply T2; assumption]. apply S2; [apply TL; exact Hk|symmetry; exact Eb].
+  - intros y Hn. rewrite T3 by (intro; apply Hn; right; assumption). apply S3. intro; subst; apply Hn; left; reflexivity.
+Qed.
+End Sel.
+
+(* C09_deallocate_if_frees_exactly_selected *)
+Theorem DeallocateIf_exact p f w :
+  (uc = false -> cache (getp w p) = []) -> JC p None w ->
+  let w' := DeallocateIf C uc w p f in
+  (forall bk, In bk (live (getp w' p)) <-> In bk (live (getp w p)) /\ f bk = false) /\
+  live (getp w' (negb p)) = live (getp w (negb p)) /\
+  acount (getp w' p) = lenz (live (getp w' p)).
+Proof.
+  intros Hnc Jw. destruct (DeallocateIf_JC p f w Hnc Jw) as ((J' & _) & Sub). cbv zeta.
+  split; [|split; [|destruct J' as (_ & (_ & _ & _ & _ & _ & _ & _ & _ & P9) & _); exact P9]].
+  2:{ unfold DeallocateIf. cbv zeta. set (w1 := if uc then flush C w p else w).
+      assert (live (getp w1 (negb p)) = live (getp w (negb p))) as L1 by (unfold w1; destruct uc; [unfold flush; apply live_of_lives; apply flush_loop_lives|reflexivity]).
+      destruct (acount (getp w1 p) =? 0); [exact L1|]. rewrite <- L1.
+      assert (forall L v, live (getp (foldl (fun w b => pvDeleteBlocks C f w p b) L v) (negb p)) = live (getp v (negb p))) as K.
+      { induction L as [|b t IH]; intros v; cbn [foldl]; [reflexivity|]. rewrite IH. rewrite pvDeleteBlocks_is_loop. apply del_loop_live_other. }
+      rewrite !K. reflexivity. }
+  intros bk. split.
+  - intros Hk. split; [apply Sub; exact Hk|]. revert Hk. unfold DeallocateIf. cbv zeta.
+    set (w1 := if uc then flush C w p else w).
+    assert (JC p None w1 /\ cache (getp w1 p) = [] /\ live (getp w1 p) = live (getp w p)) as (J1 & E1 & L1).
+    { unfold w1. destruct uc; [|split; [exact Jw|split; [apply Hnc; reflexivity|reflexivity]]].
+      split; [apply flush_JC; exact Jw|]. split; [apply PoolConcProofs.flush_cache_empty|]. unfold flush. apply live_of_lives. apply flush_loop_lives. }
+    clearbody w1. destruct (Z.eqb_spec (acount (getp w1 p)) 0) as [Ez|_].
+    { intros Hk. exfalso. destruct J1 as ((_ & (_ & _ & _ & _ & _ & _ & _ & _ & P9) & _) & _). rewrite Ez in P9.
+      destruct (live (getp w1 p)); [destruct Hk|]. cbn [lenz] in P9. pose proof (PoolInv.lenz_nonneg l). lia. }
+    pose proof J1 as ((_ & (P1 & _ & _ & _ & _ & _ & P7 & _) & _) & _). unfold own in P1. pose proof P1 as P1'. apply NoDup_app_iff in P1'. destruct P1' as (NDf & NDr & Dfr).
+    assert (forall b, In b (lfree (getp w1 p)) -> In b (own (getp w1 p))) as Ow1 by (intros b Hb; unfold own; apply in_or_app; right; exact Hb).
+    destruct (del_buffers_JC f p (lfree (getp w1 p)) w1 NDr Ow1 J1 E1) as (J2 & E2 & L2).
+    destruct (del_buffers_sel f p (lfree (getp w1 p)) w1 NDr Ow1 J1 E1) as (_ & U2 & U3). cbv zeta in *.
+    set (w2 := foldl (fun w b => pvDeleteBlocks C f w p b) (lfree (getp w1 p)) w1) in *.
+    pose proof J2 as ((_ & (Q1 & _) & _) & _). unfold own in Q1. apply NoDup_app_iff in Q1. destruct Q1 as (NDf2 & _ & _).
+    assert (NoDup (rev0 (lfull (getp w2 p)) [])) as ND2 by (rewrite rev0_spec, app_nil_r; apply NoDup_rev; exact NDf2).
+    assert (forall b, In b (rev0 (lfull (getp w2 p)) []) -> In b (own (getp w2 p))) as Ow2.
+    { intros b Hb. rewrite rev0_spec, app_nil_r, <- in_rev in Hb. unfold own. apply in_or_app. left. exact Hb. }
+    destruct (del_buffers_JC f p (rev0 (lfull (getp w2 p)) []) w2 ND2 Ow2 J2 E2) as (_ & _ & L3).
+    destruct (del_buffers_sel f p (rev0 (lfull (getp w2 p)) []) w2 ND2 Ow2 J2 E2) as (_ & V2 & _). cbv zeta in *.
+    intros Hk. pose proof (L3 bk Hk) as Hk2. pose proof (L2 bk Hk2) as Hk1.
+    destruct (P7 bk) as (_ & _ & Ob); [left; unfold lb; apply in_or_app; left; exact Hk1|].
+    unfold own in Ob. apply in_app_or in Ob. destruct Ob as [Hf|Hr].
+    + apply V2; [exact Hk|]. rewrite rev0_spec, app_nil_r, <- in_rev. apply U3; [intro Hr; exact (Dfr _ Hf Hr)|exact Hf].
+    + apply U2; [exact Hk2|exact Hr].
+  - intros (Hk & Ff). unfold DeallocateIf. cbv zeta.
+    set (w1 := if uc then flush C w p else w).
+    assert (JC p None w1 /\ cache (getp w1 p) = [] /\ live (getp w1 p) = live (getp w p)) as (J1 & E1 & L1).
+    { unfold w1. destruct uc; [|split; [exact Jw|split; [apply Hnc; reflexivity|reflexivity]]].
+      split; [apply flush_JC; exact Jw|]. split; [apply PoolConcProofs.flush_cache_empty|]. unfold flush. apply live_of_lives. apply flush_loop_lives. }
+    clearbody w1. rewrite <- L1 in Hk. destruct (acount (getp w1 p) =? 0); [exact Hk|].
+    pose proof J1 as ((_ & (P1 & _) & _) & _). unfold own in P1. apply NoDup_app_iff in P1. destruct P1 as (NDf & NDr & _).
+    assert (forall b, In b (lfree (getp w1 p)) -> In b (own (getp w1 p))) as Ow1 by (intros b Hb; unfold own; apply in_or_app; right; exact Hb).
+    destruct (del_buffers_JC f p (lfree (getp w1 p)) w1 NDr Ow1 J1 E1) as (J2 & E2 & _).
+    destruct (del_buffers_sel f p (lfree (getp w1 p)) w1 NDr Ow1 J1 E1) as (U1 & _ & _). cbv zeta in *.
+    set (w2 := foldl (fun w b => pvDeleteBlocks C f w p b) (lfree (getp w1 p)) w1) in *.
+    pose proof J2 as ((_ & (Q1 & _) & _) & _). unfold own in Q1. apply NoDup_app_iff in Q1. destruct Q1 as (NDf2 & _ & _).
+    assert (NoDup (rev0 (lfull (getp w2 p)) [])) as ND2 by (rewrite rev0_spec, app_nil_r; apply NoDup_rev; exact NDf2).
+    assert (forall b, In b (rev0 (lfull (getp w2 p)) []) -> In b (own (getp w2 p))) as Ow2.
+    { intros b Hb. rewrite rev0_spec, app_nil_r, <- in_rev in Hb. unfold own. apply in_or_app. left. exact Hb. }
+    destruct (del_buffers_sel f p (rev0 (lfull (getp w2 p)) []) w2 ND2 Ow2 J2 E2) as (V1 & _ & _). cbv zeta in *.
+    apply V1; [apply U1; assumption|exact Ff].
+Qed.
+
 (* ---------- the full history alphabet: the operations of PoolInv.gop and DeallocateIf ---------- *)
 Lemma gstep_JC w o : JC false None w -> nocache uc w -> JC false None (gstep C CF uc w o).
 Proof.
